@@ -300,7 +300,7 @@ func c19Judge(c *mon.Ctx, in *progInput) {
 		if d != nil {
 			opts = append(opts, interpreter.WithDebugger(d))
 		}
-		ok = c.Try("interpreter.Engine.Execute", func() { err = interpreter.NewEngine().Execute(opts...) })
+		ok = c.Try("interpreter.Engine.Execute", func() { err = theEngine(c).Execute(opts...) })
 		return
 	}
 	err0, ok := run(nil)
